@@ -141,7 +141,7 @@ def one_schedule_case(args):
     before = digest(segm)
     with warnings.catch_warnings():
         warnings.simplefilter('ignore')
-        serial = deblend_sources(data, segm, nproc=1, progress_bar=False, **kw)
+        serial = deblend_sources(data.copy(), segm, nproc=1, progress_bar=False, **kw)
     events = []
     V.set_sink(events)
     try:
@@ -166,7 +166,7 @@ def real_pool_case(args):
     before = digest(segm)
     with warnings.catch_warnings():
         warnings.simplefilter('ignore')
-        serial = deblend_sources(data, segm, nproc=1, progress_bar=False, **kw)
+        serial = deblend_sources(data.copy(), segm, nproc=1, progress_bar=False, **kw)
         events = []
         V.set_sink(events)
         try:
@@ -206,9 +206,50 @@ def touching_case(seed, rng):
     before = digest(segm)
     with warnings.catch_warnings():
         warnings.simplefilter('ignore')
-        serial = deblend_sources(data, segm, nproc=1, progress_bar=False, **kw)
+        serial = deblend_sources(data.copy(), segm, nproc=1, progress_bar=False, **kw)
     kw['_inp_digest'] = before
     return case_record(seed, data, segm, serial, serial, [], kw, 1, None)
+
+
+def enclosed_case(seed, rng):
+    """a bright L-shaped two-core source whose bounding box ENCLOSES (without touching) a faint two-blob source; a flagged (NaN) pixel sits
+    in the one-pixel gap between the blobs.  Each source must be deblended from the caller's pixel values only - whatever was done
+    to the shared image while another source was being processed must not leak (serial run = pickled-copy run)"""
+    from photutils.segmentation import deblend_sources, detect_sources
+    import photutils.utils._verif as V
+    a, f = rng.choice([8.0, 10.0, 15.0]), rng.choice([1.0, 2.0])
+    gx = rng.randint(18, 21)
+    data = np.zeros((38, 46))
+    data[2:34, 2:6] = a; data[30:34, 2:42] = a
+    data[8:12, 3:5] = 2 * a; data[31:33, 28:32] = 2 * a
+    data[9:18, 11:gx + 9] = f
+    data[10:17, 12:gx] = 4 * f; data[10:17, gx + 1:gx + 8] = 4 * f
+    with warnings.catch_warnings():
+        warnings.simplefilter('ignore')
+        segm = detect_sources(data, 0.5, 5)
+    flagged = data.copy()
+    if rng.random() < 0.8:
+        flagged[rng.randint(11, 15), gx] = np.nan
+    if rng.random() < 0.5:
+        flagged, segm = flagged[::-1, ::-1].copy(), type(segm)(segm.data[::-1, ::-1].copy())
+    if rng.random() < 0.3:
+        flagged, segm = flagged.T.copy(), type(segm)(segm.data.T.copy())
+    kw = dict(npixels=5, nlevels=rng.choice([16, 32]), contrast=0.001, mode=rng.choice(['linear', 'exponential', 'sinh']), connectivity=8,
+              relabel=rng.random() < 0.5)
+    before = digest(segm)
+    with warnings.catch_warnings():
+        warnings.simplefilter('ignore')
+        serial = deblend_sources(flagged.copy(), segm, nproc=1, progress_bar=False, **kw)
+    events = []
+    V.set_sink(events)
+    try:
+        out = run_with_order(rng.choice([[0, 1], [1, 0]]), flagged.copy(), segm, **kw)
+    finally:
+        V.set_sink(None)
+    if out is None:
+        out = serial
+    kw['_inp_digest'] = before
+    return case_record(seed, flagged, segm, out, serial, events, kw, 2 if events else 1, None)
 
 
 def random_refine_case(seed):
@@ -217,6 +258,8 @@ def random_refine_case(seed):
     rng = random.Random(seed)
     if rng.random() < 0.15:
         return touching_case(seed, rng)
+    if rng.random() < 0.08:
+        return enclosed_case(seed, rng)
     h, w = rng.randint(14, 26), rng.randint(14, 30)
     data = np.zeros((h, w))
     for _ in range(rng.randint(2, 7)):
@@ -250,6 +293,17 @@ def random_refine_case(seed):
                     data = data + np.random.default_rng(seed + 17).normal(0, 1.5, (h, w)) + 0.3 * gauss((h, w), rng.uniform(2, w - 2), rng.uniform(2, h - 2), 60.0, 1.2, 1.2)
             except Exception:  # noqa
                 pass
+        if rng.random() < 0.35:
+            # the caller's label array in another integer dtype (int64: built from a plain Python/NumPy integer array or read back from a file)
+            from photutils.segmentation import SegmentationImage
+            segm = SegmentationImage(segm.data.astype(rng.choice([np.int64, np.int64, np.int16, np.uint32])))
+        if rng.random() < 0.35:
+            # NaN-flagged pixels inside segments (segmentation made on a clean/convolved image, deblending on the flagged one); in crowded
+            # scenes they lie inside the bounding boxes of OTHER deblending candidates
+            ys, xs = np.nonzero(segm.data)
+            data = data.copy()
+            for k in rng.sample(range(len(ys)), min(len(ys), rng.randint(1, 5))):
+                data[ys[k], xs[k]] = np.nan
         labels_arg = None
         if rng.random() < 0.3:
             labels_arg = sorted(rng.sample([int(x) for x in segm.labels], rng.randint(1, segm.nlabels)))
@@ -260,7 +314,7 @@ def random_refine_case(seed):
         kw = dict(npixels=npix, nlevels=rng.choice([1, 4, 32]) if not quiet else 1, contrast=rng.choice([0, 0, 0.001, 0.05, 0.3, 1]),
                   mode=rng.choice(['exponential', 'linear', 'sinh']), connectivity=conn, relabel=rng.random() < 0.5)
         before = digest(segm)
-        serial = deblend_sources(data, segm, labels=labels_arg, nproc=1, progress_bar=False, **kw)
+        serial = deblend_sources(data.copy(), segm, labels=labels_arg, nproc=1, progress_bar=False, **kw)   # every run gets a fresh image
         # a second, dictated-order run (reverse completion) must be identical
         ntasks = sum(1 for l, a in zip(segm.labels, segm.areas) if a >= 2 * npix and (labels_arg is None or int(l) in labels_arg))
         import photutils.utils._verif as V
